@@ -10,7 +10,7 @@ SIG = {'mul': 'xxx'}
 encode = default_encode(SIG)
 decode = default_decode(SIG)
 TASK_REQS = 2500
-RULE = ('requests (a, b, carry word): structured operand families; a = ceil(2^BITS / b) +- 1 (overflow by one bit); leading digits ta, tb with ta*tb .. (ta+1)*(tb+1) in B-2..B+2 (every factorisation of those five numbers) at operand lengths adding up to N or N+1; single-digit '
+RULE = ('requests (a, b, carry word): structured operand families; a = ceil(2^BITS / b) +- 1 (overflow by one bit); two-limb operands whose cross term a0*b1 + a1*b0 is exactly 2^(2L) for limb sizes L = digit, 16, 32, 64; leading digits ta, tb with ta*tb .. (ta+1)*(tb+1) in B-2..B+2 (every factorisation of those five numbers) at operand lengths adding up to N or N+1; single-digit '
         'operands at digit positions i, j with i + j in {N-2, N-1, N} (the in/out-of-range column boundary); signed magnitude '
         '2^(BITS-1) with every sign combination, MIN * +-1, (MAX/k)*k; MAX*MAX+MAX; all 2^16 pairs at 8 bits. Non-trivial: the '
         'product overflows, is exactly MIN, has full width without overflowing, or overflows only through the last row carry; '
@@ -56,6 +56,10 @@ def requests(cfg, rng, n, tier, part, nparts, st):
         c = rng.choice((0, 1, cfg.max, cfg.mask, gen.value(cfg, rng), gen.value(cfg, rng)))
         if r < 0.22:
             a, b = gen.pair(cfg, rng)
+        elif r < 0.25:
+            a, b = gen.cross_term_pair(cfg, rng)
+            if cfg.signed:
+                a, b = cfg.val(a), cfg.val(b)
         elif r < 0.30:
             # leading digits whose product (or the product of their successors) is B-2 .. B+2: the exact boundary of any bound that decides
             # from the leading digits alone whether the product fits
